@@ -63,6 +63,17 @@ def construct_variants(d):
         v['injector'] = 'Init_' + v['id']
         if ds.accepts(v) and v['ret'] in ds.suppliers(v):
             out.append(v)
+        # (A) the same with the expansion wrapped in Async and BOTH fields consumed (the second one by the provider of the
+        #     requested type): whatever the generator makes of Async(Struct[T]()) is compared with the plan (field reads are
+        #     synchronous and follow their struct), seeded change w10-C08-1
+        if i != n - 1 and d['providers'][n - 1]['provides'][0][0] == d['ret']:
+            a = copy.deepcopy(v)
+            a['providers'][-1]['async'] = True
+            a['providers'][n - 1]['requires'] = list(a['providers'][n - 1]['requires']) + [uname]
+            a['id'] = '%sa%d' % (d['id'], i)
+            a['injector'] = 'Init_' + a['id']
+            if ds.accepts(a) and a['ret'] in ds.suppliers(a):
+                out.append(a)
         # (M) Pi has a second result U<i>, which the provider of the requested type consumes as well
         if i != n - 1 and d['providers'][n - 1]['provides'][0][0] == d['ret']:
             v = copy.deepcopy(d)
